@@ -22,7 +22,7 @@ async fn fill(cx: &Ctx, n: usize) -> Result<(), Verdict> {
     Ok(())
 }
 
-fn limits_unit(thorough: bool) -> Unit {
+pub fn limits_unit(thorough: bool) -> Unit {
     let maxes: Vec<i32> = vec![1, 2, 999, 1000, 1001, 65535, 65536, 65537, i32::MAX];
     let backlogs: Vec<usize> = if thorough { vec![0, 1, 2, 999, 1000, 1001, 65535, 65536, 65537, 66536, 131073] } else { vec![0, 1, 2, 999, 1000, 1001, 65535, 65536, 65537, 66536] };
     let f: ScenFn = scen!([maxes, backlogs] |cx| {
@@ -202,7 +202,7 @@ fn blocking_unit(thorough: bool) -> Unit {
     explore_unit(
         "sched/blocking-pull",
         "a Pull without return_immediately: pending until 299.9 s, empty at 300 s + slack; returns 1..=max messages in the same quiescence as the first publish / nack / expiry (at 0, 1 s, 150 s into the wait)",
-        Bounds::new(if thorough { 3 } else { 2 }),
+        Bounds::new(if thorough { 5 } else { 2 }),
         ExecCfg::default(),
         f,
     )
